@@ -54,7 +54,7 @@ func sidecarLedger(t *testing.T, r *ev.Run) {
 		return &pb.SessionRequest{Request: &pb.SessionRequest_Encrypt{Encrypt: &pb.Encrypt{Data: []byte(b)}}}
 	}
 	aborted := errors.New("rpc error: code = Canceled desc = context canceled")
-	for _, cfgName := range []string{"simple", "sesscache", "nocache"} {
+	for _, cfgName := range []string{"simple", "sesscache", "sesscache+shared", "nocache"} {
 		for _, ending := range []string{"eof", "abort-after-get-session", "abort-after-traffic", "mixed"} {
 			name := fmt.Sprintf("sidecar/%s/%s", cfgName, ending)
 			journal("C09 " + name)
